@@ -17,7 +17,11 @@ def gen_hunk_diff(rng, nl=b'\n'):
         nm = sum(1 for k in kinds if k in ' +')
         out.append(('@@ -%d,%d +%d,%d @@' % (rng.randint(1, 50), no, rng.randint(1, 50), nm)).encode())
         for i, k in enumerate(kinds):
-            out.append(k.encode() + rng.choice([b'x', b'-- a', b'++ b', b'', b'@@ -1 +1 @@', b'text']))
+            payloads = [b'x', b'-- a', b'++ b', b'', b'@@ -1 +1 @@', b'text']
+            # a line is terminated by the diff's newline only: a bare CR inside a line of an
+            # LF-ended diff (a bare LF inside a line of a CRLF-ended diff) does not start a new line
+            payloads += [b'x\r-y', b'a\rb', b'\r+'] if nl == b'\n' else [b'x\n+y', b'p\nq', b'\n-']
+            out.append(k.encode() + rng.choice(payloads))
             if i < n - 1 and rng.random() < 0.1:
                 out.append(b'\\ No newline at end of file')
         dels += kinds.count('-')
